@@ -134,7 +134,14 @@ impl SubCheck for Builders {
 		obs.class(if case.named { "named" } else { "positional" });
 		let r = std::panic::catch_unwind(std::panic::AssertUnwindSafe(|| {
 			let mut obs2 = Obs::new();
-			let mut b = if case.named { B::O(ObjectParams::new()) } else { B::A(ArrayParams::new()) };
+			// (an even number of operations: the builder comes from `new()`, an odd number: from `Default`)
+			let via_default = case.ops.len() % 2 == 1;
+			let mut b = match (case.named, via_default) {
+				(true, false) => B::O(ObjectParams::new()),
+				(true, true) => B::O(ObjectParams::default()),
+				(false, false) => B::A(ArrayParams::new()),
+				(false, true) => B::A(ArrayParams::default()),
+			};
 			let mut expect: Vec<(String, Value)> = vec![];
 			let mut attempts = false;
 			let mut had_fail = false;
